@@ -68,7 +68,7 @@ PROPS["C06"] = {
     "assumptions": ["regular-expression semantics = Go regexp on ^(?:p)$; for the fragment read by Model/Regex.parse (no named groups, inline flags other than a leading (?i), \\b \\A \\z \\p, POSIX classes, non-ASCII) that assumption is itself checked against the Lean matcher on every regex case"],
 }
 PROPS["C07"] = {
-    "level_text": "Theorems: collectSymbols returns exactly the declared membership (own rules and all ancestors' rules; rule-less group = union of subgroups; Other bucket iff no subgroup matched) for EVERY forest (mutual induction over the rose tree); untraversed references get only 'ignored'; Categorize = specification. Correspondence as for C06 plus Groups() order and names; rendering of deep hierarchies is checked by the output engine (C11/C19). `Pins.Group` (REGENERATED statements of refGroup.collectSymbols): `collect_branches`, `pinned`.",
+    "level_text": "Theorems: collectSymbols returns exactly the declared membership (own rules and all ancestors' rules; rule-less group = union of subgroups; Other bucket iff no subgroup matched) for EVERY forest (mutual induction over the rose tree); untraversed references get only 'ignored'; Categorize = specification. Correspondence as for C06 plus Groups() order and names; rendering of deep hierarchies is checked by the output engine (C11/C19). `Pins.Group` (REGENERATED statements of refGroup.collectSymbols): `collect_branches`, `pinned`. `symbol_hierarchy_source`: `splitKey` and `parentName` as TRANSLATED from internal/refopts/ref_group_builder.go on this run equal the model's (cut at the LAST '.') for every byte string and never panic.",
     "level_note": "Trusted: as C06. One recorded finding (F10: reserved symbol names).",
     "technique": "Lean 4 proof (mutual structural induction) + differential correspondence",
     "modules": ["GitSizer.Props.C07", "GitSizer.Props.Pins.Group"],
